@@ -153,13 +153,14 @@ const (
 	opCondWait
 	opCondSignal
 	opAtomic
+	opIdle
 )
 
 var opNames = map[opKind]string{opStart: "start", opYield: "yield", opTouch: "touch", opSend: "send", opRecv: "recv",
 	opClose: "close", opSelect: "select", opWGAdd: "wg.Add", opWGWait: "wg.Wait", opLock: "Lock", opTryLock: "TryLock",
 	opUnlock: "Unlock", opRLock: "RLock", opTryRLock: "TryRLock", opRUnlock: "RUnlock", opOnce: "Once.Do",
 	opRead: "conn.Read", opWrite: "conn.Write", opConnClose: "conn.Close", opTimerWait: "Sleep", opMapOrder: "maprange",
-	opCondWait: "Cond.Wait", opCondSignal: "Cond.Signal", opAtomic: "atomic"}
+	opCondWait: "Cond.Wait", opCondSignal: "Cond.Signal", opAtomic: "atomic", opIdle: "WaitIdle"}
 
 type chanCore struct {
 	id     string
@@ -313,6 +314,16 @@ func Touch(obj string) {
 		return
 	}
 	s.park(&op{kind: opTouch, tag: obj})
+}
+
+// WaitIdle blocks until no other goroutine can make progress (harness actors use it to
+// act only after the system has quiesced).
+func WaitIdle() {
+	s := S
+	if s == nil || s.dead {
+		return
+	}
+	s.park(&op{kind: opIdle})
 }
 
 // Explore switches branching on or off (exploration window, DESIGN §4.4).
@@ -1020,6 +1031,8 @@ func (s *Sched) perform(t trans) []*G {
 		g.note(s, "start")
 	case opYield:
 		g.note(s, "yield:"+o.tag)
+	case opIdle:
+		g.note(s, "idle")
 	case opAtomic:
 		g.note(s, "atomic:"+o.tag)
 	case opTouch:
@@ -1431,6 +1444,14 @@ func Run(cfg Config, body func()) *Sched {
 			ts = append(own, others...)
 			lastEnabled = len(own) > 0
 			groupMode = true
+		}
+		if len(ts) == 0 {
+			for _, g := range s.gs {
+				if !g.done && g.op != nil && g.op.kind == opIdle {
+					ts = append(ts, trans{g: g})
+					break
+				}
+			}
 		}
 		nG := len(ts)
 		// environment: timer firings (sleepers are always eligible, tickers/timers within budget)
